@@ -89,6 +89,11 @@ class ZD(ZO):  # derived: inherits `c`, adds a tuple
     more: tuple[ASTNode, ...] = ()
 
 
+@dataclass(frozen=True)
+class ZJ(ZO, ZX):  # TWO node bases and an empty body: the fields are those of both bases (ZX's `pair`, then ZO's `c`)
+    pass
+
+
 ANY = None
 LEAFY = {"ZL", "ZS"}
 
@@ -103,6 +108,7 @@ _SPECS = {
     "ZX": C("ZX", ZX, [F("pair", FIX, (LEAFY, ANY))]),
     "ZM": C("ZM", ZM, [F("a", OPT, ANY), F("items", VAR, ANY, maxlen=2), F("b", OPT, {"ZL", "ZS", "ZV"})]),
     "ZD": C("ZD", ZD, [F("c", OPT, ANY), F("more", VAR, ANY, maxlen=2)], bases=("ZO",)),
+    "ZJ": C("ZJ", ZJ, [F("pair", FIX, (LEAFY, ANY)), F("c", OPT, ANY)], bases=("ZO", "ZX")),
     "ZN": C("ZN", ZN, [F("b", OPT, {"ZL", "ZS", "ZV"}), F("items", VAR, ANY, maxlen=2), F("a", OPT, ANY)]),
 }
 
